@@ -252,6 +252,19 @@ def _entries():
                mask=X.m, unit=X.unit), X.aper)
     E['do_photometry'] = lambda X: X.aper.do_photometry(
         X.d, error=X.e, mask=X.m, method='subpixel', subpixels=3)
+    def _plot(X):
+        import matplotlib
+        matplotlib.use('Agg')
+        import matplotlib.pyplot as plt
+        fig, ax = plt.subplots()
+        try:
+            X.aper.plot(ax=ax, origin=(3, 2))
+            X.annulus.plot(ax=ax, origin=(1.5, 0))
+            X.aper.to_mask()[0].get_overlap_slices(X.shape)
+        finally:
+            plt.close(fig)
+        return np.asarray(X.aper.positions, float).copy()
+    E['aperture_plot'] = _plot
     E['area_overlap'] = lambda X: X.aper.area_overlap(X.d, mask=X.m)
     E['ApertureStats'] = lambda X: ApertureStats(
         X.d, X.aper, error=X.e, mask=X.m, sigma_clip=SigmaClip(3.0),
